@@ -67,6 +67,9 @@ pub enum Plan {
     RefuseOnce { k: u32, errno: i32 },
     /// RLIMIT_MEMLOCK model: a request that would take the locked-page count above `pages` fails with ENOMEM
     Budget { pages: u32 },
+    /// a policy that denies locking *and* unlocking (e.g. a seccomp profile): from the k-th
+    /// lock request on every mlock and every munlock fails with `errno`
+    RefuseAllFrom { k: u32, errno: i32 },
 }
 
 const MAX_RECS: usize = 2048;
@@ -84,6 +87,7 @@ pub struct State {
     pub plan: Plan,
     pub lock_requests: u32,
     pub refusals: u32,
+    pub munlock_refusals: u32,
     /// pages the *shim* believes are locked (for the budget plan): counted per request range
     pub budget_locked_pages: i64,
     pub peak_locked_pages: i64,
@@ -107,6 +111,7 @@ static mut STATE: State = State {
     plan: Plan::None,
     lock_requests: 0,
     refusals: 0,
+    munlock_refusals: 0,
     budget_locked_pages: 0,
     peak_locked_pages: 0,
     locked_set: [0; 1024],
@@ -162,6 +167,7 @@ pub fn reset(plan: Plan) {
     s.plan = plan;
     s.lock_requests = 0;
     s.refusals = 0;
+    s.munlock_refusals = 0;
     s.budget_locked_pages = 0;
     s.peak_locked_pages = 0;
     s.nlocked_set = 0;
@@ -255,6 +261,13 @@ pub unsafe extern "C" fn mlock(addr: *const c_void, len: size_t) -> c_int {
                 None
             }
         }
+        Plan::RefuseAllFrom { k, errno } => {
+            if n >= k {
+                Some(errno)
+            } else {
+                None
+            }
+        }
         Plan::Budget { pages } => {
             if s.budget_locked_pages + want > pages as i64 {
                 Some(libc::ENOMEM)
@@ -282,6 +295,17 @@ pub unsafe extern "C" fn mlock(addr: *const c_void, len: size_t) -> c_int {
 
 #[no_mangle]
 pub unsafe extern "C" fn munlock(addr: *const c_void, len: size_t) -> c_int {
+    if ARMED.load(Ordering::Relaxed) {
+        let s = st();
+        if let Plan::RefuseAllFrom { k, errno } = s.plan {
+            if s.lock_requests >= k {
+                s.munlock_refusals += 1;
+                record(Rec { kind: CallKind::Munlock, addr: addr as usize, len, arg: errno, ret: -1, injected: true });
+                set_errno(errno);
+                return -1;
+            }
+        }
+    }
     let r = libc::syscall(libc::SYS_munlock, addr, len) as c_int;
     if ARMED.load(Ordering::Relaxed) {
         let s = st();
